@@ -7,6 +7,7 @@ from typing import List
 
 from harness.extract import acl as x_acl
 from harness.extract import filter as x_filter
+from harness.extract import filter_soft as x_soft
 from harness.lib.core import TRUSTED_BASE, VERIF, Ctx, lean_lock, run_driver, shrink_ops
 from harness.rigs import filter as rig
 from harness.rigs import net as netrig
@@ -25,16 +26,28 @@ MANIFEST = {
             "session_manager.py (order of guards and calls, list per entry point, port dispatch, power guards, own-source "
             "stamping, send_frame call sites, cross-node reaches) + rig R-filter (real elements vs model, frame by frame) + "
             "rig R-net (generated switched / routed / firewall+DMZ topologies, every block mechanism, red repertoire from A "
-            "before and after the block, B-side describe_state against an idle run, per-frame denied=>inert wrappers).",
-    "note": "Partial: software above the filtering layer is an arbitrary parameter; that a router's handling of ACL-exempt ARP "
-            "packets and a firewall's second-stage forwarding stay on the attacker side is a hypothesis validated by R-net, not "
-            "proved; node-off inertness for hosts/switches/firewalls rests on C12's invariant (not ON => interfaces disabled); "
+            "before and after the block, B-side describe_state against an idle run, per-frame denied=>inert wrappers). "
+            "Deepened (Props/C06Class.lean): the cut theorem for FRAME CLASSES - a router whose list denies every packet of the "
+            "class circulating on the attacker side (source exact/range, destination, protocol, port patterns; decidable scan "
+            "denyClassCheck proved sound), a firewall whose first OR second-stage lists deny the class (the six entry points, "
+            "second entry selected as in the code); the class-aware certificate certifyC is proved sound and must accept the real "
+            "post-block network of EVERY R-net scenario and reject the same network without the block; a denying router's handling "
+            "of genuine ARP packets (routerArpSoft: RouterARP request/reply, reply through resolve_outbound_network_interface, "
+            "process_frame's broadcast and own-address drops) is PROVED to stay on the attacker side; ARP.send_arp_request targets "
+            "only a local subnet or the default gateway and stamps the outbound interface as sender; Gen/FilterSoft.lean: every "
+            "enable()/enable_port()/.enabled=True site, none reachable from receive_frame except through the request dispatcher.",
+    "note": "Partial: software above the filtering layer is an arbitrary parameter except a router's ARP handling (modelled, "
+            "proved); remaining hypotheses, validated by R-net: at a firewall port whose first list lets the class pass, the "
+            "firewall's own session replies, its DMZ look-ups and its forwarding INTO ZONES WITH NO WIRE TO THE PROTECTED SIDE stay "
+            "on the attacker side (forwarding correctness is C08's); attacker-side nodes emit only frames of the class (validated "
+            "on every transmitted frame); software does not re-enable a boundary interface (regenerated call-site scan: only through "
+            "the request dispatcher); node-off inertness for hosts/switches/firewalls rests on C12's invariant (not ON => interfaces disabled); "
             "shared mutable frames/payload aliasing and application-level relays are outside the model.",
     "technique": "Lean 4 theorems over executable element models + generic cut theorem; model tied by regenerated tables and "
                  "two differential/oracle rigs",
     "design_ref": "5/C06",
 }
-MODULES = ["PrimaiteModel.Lemmas.C06Cut", "PrimaiteModel.Props.C06"]
+MODULES = ["PrimaiteModel.Lemmas.C06Cut", "PrimaiteModel.Props.C06", "PrimaiteModel.Props.C06Class"]
 EXE = "drv_c06"
 
 
@@ -126,19 +139,25 @@ def _run_filter(ctx: Ctx):
 def run(ctx: Ctx):
     with lean_lock():
         ctx.extract("Filter", x_filter.emit)
+        ctx.extract("FilterSoft", x_soft.emit)
         # Props/C06 builds on C07's verdict theorems, whose Gen tables must be current as well
         ctx.extract("Acl", x_acl.emit)
         ctx.extract("AclMatch", x_acl.emit_match)
         ctx.prove(MODULES, exes=[EXE], clean=False, leanchecker=ctx.thorough)
     ctx.assumptions = list(TRUSTED_BASE) + [
-        "C06: software above the filtering layer is an arbitrary parameter of the model; two hypotheses on it are validated by "
-        "R-net only: a denying router's handling of genuine ARP packets stays on the attacker side; software does not re-enable a "
-        "boundary interface while processing frames",
+        "C06: software above the filtering layer is an arbitrary parameter of the model, except a router's ARP handling "
+        "(routerArpSoft, proved safe under: ARP requests are broadcasts whose sender lies in the arrival interface's network, ARP "
+        "replies to an interface's MAC are for its IP, boundary and attacker-facing networks are disjoint - the last is checked by "
+        "certifyC); 'software does not re-enable a boundary interface while processing frames' rests on the regenerated enable-site "
+        "scan (name-based call graph; the request dispatcher IS reachable: a logged-in attacker is the excluded relay)",
+        "C06: firewall second-stage blocks: what the firewall does with a frame that a NON-denying second list permits (a zone "
+        "with no wire to the protected side), its own session replies and the DMZ look-ups are hypotheses of "
+        "C06_certifiedC_unchanged (FwSecondOK), validated by R-net's count of frames put on protected-side wires",
+        "C06: frame classes: that attacker-side nodes emit only frames of the scenario's class is a hypothesis (EmitsCl), proved "
+        "for the source part of host emissions (C06_localOp_src_class) and validated by R-net on every transmitted frame",
         "C06: node-off inertness of hosts/switches/firewalls rests on C12's invariant 'not ON => interfaces disabled' (F-13/F-14)",
         "C06: frames are values in the model (the code shares one mutable Frame object among the recipients of a flood); frames "
         "whose IP protocol is TCP/UDP carry that header (enforced by Frame.__init__)",
-        "C06: class-specific router rules and firewall second-stage blocks have element lemmas but no cut-theorem instance; those "
-        "scenarios are checked by the R-net oracle only (histogram keys net:uncertified:*)",
     ]
     ctx.cov["rule"] = ("R-filter: case = (element kind, power, interface flags, rule lists, frames/flag flips); non-trivial when "
                        "some frame passes the interface gate. R-net: case = (topology family, placement, block mechanism, rule "
